@@ -224,7 +224,7 @@ def find_case(rng, variant):
     extra_consumed = len(user.incoming) != 1
     ys = [((sd.encode_ds(a) if a is not None else None), int(b)) for a, b in yields]
     sent_rq = [r for r in user.sent() if 'cf' in r]
-    term = '(mkfcase %s %s %s %s %s %s)' % (
+    term = '(EndToEnd (mkfcase %s %s %s %s %s %s))' % (
         sd.c_rq(0x20, pc, mid, sop, None), clist(['(%s, %d)' % (cbytes(sd.encode_ds(d)), s) for d, s in matches]),
         clist([sd.c_rsp(r) for r in sent]), cbool(query_seen),
         clist(['(%s, %d)' % ('None' if a is None else '(Some %s)' % cbytes(a), b) for a, b in ys]), cbool(extra_consumed))
@@ -232,6 +232,45 @@ def find_case(rng, variant):
                  max_pdu=lab.assoc.max_pdu_length, provider_error=err, user_error=uerr, yielded=len(ys),
                  yielded_statuses=[hex(b) for _a, b in ys], query_seen=query_seen, extra_consumed=extra_consumed,
                  sizes=[len(sd.encode_ds(d)) for d, _s in matches])
+    return term, human
+
+
+def find_user_case(rng, variant):
+    """The user side alone: scripted responses pend ++ [final] ++ rest with final success / failure / cancel."""
+    from pynetdicom2 import sopclass, dimsemessages as dm
+    sop = MWL if variant == 'worklist' else FIND
+    user = sd.Lab()
+    pc, mid = rng.choice([1, 3, 255]), ids(rng)
+    n = rng.choice([0, 1, 2, 4])
+    pend = [(sd.small_dataset(k, rng.choice([0, 60])), rng.choice([0xFF00, 0xFF01])) for k in range(n)]
+    final = rng.choice([0x0000, 0xA700, 0xC001, 0xFE00, 0x0122])
+    final_has_data = rng.random() < 0.2
+    script = [(sd.encode_ds(d), s) for d, s in pend] + [(sd.encode_ds(sd.small_dataset(77)) if final_has_data else b'', final)]
+    script += [(sd.encode_ds(sd.small_dataset(88)), 0xFF00), (b'', 0)]       # must not be consumed
+    for data, st in script:
+        m = dm.CFindRSPMessage()
+        m.message_id_being_responded_to = mid
+        m.sop_class_uid = sop
+        m.status = st
+        if data:
+            m.data_set = data
+        user.incoming.append((m, pc))
+    scu = sopclass.modality_work_list_scu if variant == 'worklist' else sopclass.qr_find_scu
+    yields = []
+    uerr = None
+    try:
+        for a, b in scu(user.assoc, user.ctx(pc, sop), sd.small_dataset(5), mid):
+            yields.append((a, b))
+    except Exception as e:  # noqa
+        uerr = repr(e)
+    consumed = len(script) - len(user.incoming)
+    ys = [((sd.encode_ds(a) if a is not None else None), int(b)) for a, b in yields]
+    term = '(UserOnly %s %s %d)' % (
+        clist(['(%s, %d)' % (cbytes(d) if d else '[]', st) for d, st in script]),
+        clist(['(%s, %d)' % ('None' if a is None else '(Some %s)' % cbytes(a), b) for a, b in ys]), consumed)
+    human = dict(variant=variant + '-user-only', n_matches=n, statuses=[hex(s) for _d, s in pend], final=hex(final),
+                 yielded=len(ys), yielded_statuses=[hex(b) for _a, b in ys], consumed=consumed, user_error=uerr,
+                 max_pdu=0, pc=pc)
     return term, human
 
 
@@ -243,11 +282,14 @@ def main_c16(tier, seed):
     for variant in ('qr', 'worklist'):
         for _ in range(80 if tier == 'quick' else 800):
             obs.append(find_case(rng, variant))
+        for _ in range(40 if tier == 'quick' else 400):
+            obs.append(find_user_case(rng, variant))
     return finish(dec, 'C16', obs, 'fcase', [('corr', 'find_corr'), ('spec', 'find_spec')],
                   ('query/retrieve C-FIND and modality worklist: result sequences of length 0,1,2,3,7 with seeded data sets '
                    'of several sizes and any mix of FF00 / FF01, maximum PDU lengths forcing multi-fragment responses, the '
-                   'provider\'s responses passed through the real encoder and decoder to the real user side'),
-                  lambda h: (h['variant'], h['n_matches'], tuple(h['statuses']), h['max_pdu']), 'wrong-find-results')
+                   'provider\'s responses passed through the real encoder and decoder to the real user side; and the user side alone on '
+                   'scripted responses ending with success / failure / cancel followed by further messages'),
+                  lambda h: (h['variant'], h['n_matches'], tuple(h['statuses']), h['max_pdu'], h.get('final')), 'wrong-find-results')
 
 
 # ------------------------------------------------------------------------------------------------ C19
